@@ -119,7 +119,9 @@ pub enum Dimension {
     Frequency,
     /// A resolution (number of pixels per length).
     Resolution,
-    /// No dimension (no unit, percentage, or grid fraction).
+    /// A fraction of the free space in a grid.
+    Fraction,
+    /// No dimension (no unit or percentage).
     None,
     /// The dimension of an unknown (but named) unit.
     Unknown(String),
@@ -153,7 +155,9 @@ impl Unit {
 
             Self::Dpi | Self::Dpcm | Self::Dppx => Dimension::Resolution,
 
-            Self::Percent | Self::Fr | Self::None => Dimension::None,
+            Self::Fr => Dimension::Fraction,
+
+            Self::Percent | Self::None => Dimension::None,
 
             Self::Unknown(ref name) => Dimension::Unknown(name.clone()),
         }
@@ -298,7 +302,7 @@ impl From<Dimension> for CssDimension {
             Dimension::Time => Self::Time,
             Dimension::Frequency => Self::Frequency,
             Dimension::Resolution => Self::Resolution,
-            Dimension::None => Self::None,
+            Dimension::Fraction | Dimension::None => Self::None,
             Dimension::Unknown(s) => Self::Unknown(s),
         }
     }
